@@ -297,6 +297,7 @@ def _child(prop: str, spec: dict, timeout: float) -> dict:
             json.dump(spec, f)
         env = dict(os.environ)
         env["VF_CHILD"] = "1"
+        env.update({str(k): str(v) for k, v in (spec.get("env") or {}).items()})  # e.g. TZ for configuration sweeps
         cmd = [sys.executable, "-X", "faulthandler", "-m", "vf.core.main", prop, "--shard-file", spec_path, "--out", out_path]
         try:
             p = subprocess.run(cmd, env=env, capture_output=True, text=True, timeout=timeout, cwd=VERIF_ROOT)
